@@ -138,7 +138,13 @@ func checkID(ctx *pbt.Ctx, c IDCase) error {
 	}
 	tx := ref.ToLib(m)
 	ctx.After(ref.Intact(tx))
-	fq := ref.FeeQuoteToLibTagged(c.Quote)
+	lq, err := ref.FeeQuoteBuild(c.Quote)
+	if err != nil {
+		return fmt.Errorf("building the quote object: %v", err)
+	}
+	fq := lq.Q
+	ctx.After(lq.Unmodified)
+	ctx.Labelf("quote-build=%d", c.Quote.Build)
 	ctx.Key(ref.Encode(m, true), []byte(fmt.Sprint(c.Quote.Std, c.Quote.Data)))
 
 	// -- 1. partition of bytes ------------------------------------------------
@@ -335,8 +341,24 @@ func genUnit(t *rapid.T, label string) ref.FeeUnit {
 }
 
 func genQuote(t *rapid.T) ref.FeeQuote {
-	return ref.FeeQuote{Std: genUnit(t, "std"), Data: genUnit(t, "data"), StdRelay: genUnit(t, "stdrelay"), DataRelay: genUnit(t, "datarelay"),
+	q := ref.FeeQuote{Std: genUnit(t, "std"), Data: genUnit(t, "data"), StdRelay: genUnit(t, "stdrelay"), DataRelay: genUnit(t, "datarelay"),
 		StdTag: genFeeTag(t, "stdtag"), DataTag: genFeeTag(t, "datatag")}
+	genQuoteBuild(t, &q)
+	return q
+}
+
+// genQuoteVia draws the exported way a quote object in use is changed.
+func genQuoteVia(t *rapid.T, label string) string {
+	return rapid.SampledFrom([]string{"addquote", "addquote", "addquote", "unmarshal", "unmarshal", "shared", "fetched", "fetched-other-quote", "unmarshal-partial", "updateminerfees", "expiry"}).Draw(t, label)
+}
+
+// genQuoteBuild draws how the quote object is filled in the first place and adapts the model
+// where the way implies it (one shared fee object: both types carry the same rates).
+func genQuoteBuild(t *rapid.T, q *ref.FeeQuote) {
+	q.Build = []int{ref.FeeBuildAddQuote, ref.FeeBuildAddQuote, ref.FeeBuildAddQuote, ref.FeeBuildShared, ref.FeeBuildFetched, ref.FeeBuildUnmarshal, ref.FeeBuildContainer, ref.FeeBuildUsedBefore}[rapid.IntRange(0, 7).Draw(t, "quote_build")]
+	if q.Build == ref.FeeBuildShared {
+		q.Data, q.DataRelay = q.Std, q.StdRelay
+	}
 }
 
 // genFeeTag draws what the informational FeeType field of a registered *bt.Fee carries: equal
